@@ -52,5 +52,7 @@ package adapter
 // with a non-null value (jsonOK/jsonNumKeys/jsonKeys/jsonVals are the root-level structure of the
 // document as functions of the bytes).
 //@ func (p *JSONParser) Parse(jsonString) (result, err)
+//   NewJSONParser refuses a nil codec
+//@   requires[inv] p != nil && tag(p.cdc) != 0
 //@   ensures[C15] err == nil ==> jsonOK(strbytes(jsonString)) && jsonNumKeys(strbytes(jsonString)) == 1
 //@   ensures[C15] err == nil ==> jsonKeys(strbytes(jsonString))["orbiter"] && tag(jsonVals(strbytes(jsonString))["orbiter"]) != 0
